@@ -39,6 +39,7 @@ RULE += (' Also: managers whose own single argument is a coroutine function (a h
 RULE += (" Also: decorated callables that are plain wrappers handing back the body's coroutine.")
 RULE += (' Also: set-up failures that are a RuntimeError raised from a StopAsyncIteration, or a leaked StopAsyncIteration (message and cause compared).')
 RULE += (' Also: generators that raise the cause of the exception they were given.')
+RULE += (' Also: generators answering with an exception group that contains what was thrown in.')
 ASSUMPTIONS = ["contextlib.asynccontextmanager of the running interpreter is the reference",
                "__cause__/__context__ chains and messages are not compared"]
 EXHAUSTIVE = {"quick": True, "thorough": True}
@@ -55,6 +56,7 @@ PRE = ["raise", "noyield", "yield", "raise_runtime_from_sai", "leak_sai"]
 VALUE = {0: "V", 1: None, 2: 0}  # what the generator yields to ``as``: also None / falsy
 HANDLER = ["none", "finally", "swallow", "reraise", "raise_new", "raise_new_from_none", "raise_same_type", "return",
            "raise_copy", "raise_copy_from_none", "raise_runtime_chain", "raise_runtime_sub_from_exc", "raise_cause",
+           "raise_group_of_exc", "raise_group_of_two",
            "raise_notimplemented_from_exc",
            "yield_again", "raise_sai", "raise_si",
            # the type and chaining of what the generator raises matters to the classification in __aexit__
@@ -280,6 +282,12 @@ def make(pre, handler, after, log, susp):
                     # exception itself if it has none) - for a block that failed with "RuntimeError from StopIteration" that
                     # is a Stop(Async)Iteration escaping the generator, which the generator protocol promotes again
                     raise (e.__cause__ or e)
+                elif handler == "raise_group_of_exc":
+                    # the clean-up reports through an exception GROUP (a task group / cancel scope held open by the
+                    # generator) whose only member is the block's exception: still the generator's own exception
+                    raise BaseExceptionGroup("clean-up", [e])
+                elif handler == "raise_group_of_two":
+                    raise BaseExceptionGroup("clean-up", [e, New("h")])
                 elif handler == "raise_runtime_sub_from_exc":
                     # a proper SUBCLASS of RuntimeError raised from the block's exception (NotImplementedError,
                     # RecursionError, a user class): classified like any RuntimeError
